@@ -95,6 +95,7 @@ type Spec struct {
 	InitCond       map[string]string            // "<if init source> ; <cond source>" -> Lean Bool term standing for the whole test
 	ErrCalls       map[string]string            // call-name prefix -> Lean Bool input "this call returned an error"; the `if err != nil` after it tests that input
 	Effects        map[string]string            // call-name prefix of an expression statement -> "leanVar := term" binding it performs
+	RangeAnyReturn map[string]string            // source of a ranged-over expression -> Lean Bool input "some iteration takes the loop's only `return`" (any body shape, one return, no break/continue)
 	RangeCond      map[string]string            // source of a ranged-over expression -> Lean Bool input "some iteration takes the loop's single `if ... { return }`"
 	Status         map[string]int               // "status"/"statusstate" return modes: Go expression source (http.StatusX) -> number
 	StatusIdx      int                          // index of the status among the results ("status", "statusstate", "statuserr")
@@ -1172,6 +1173,17 @@ func (t *tr) ret(r *ast.ReturnStmt) string {
 		}
 		failf(r, "errlastbool: bare return")
 		return ""
+	case "errboolstate":
+		// a function whose only result is `error`: (true = returned nil, StateVars…)
+		if len(r.Results) == 1 {
+			v := "false"
+			if id, ok := r.Results[0].(*ast.Ident); ok && id.Name == "nil" {
+				v = "true"
+			}
+			return "(" + strings.Join(append([]string{v}, t.sp.StateVars...), ", ") + ")"
+		}
+		failf(r, "errboolstate: return with %d results", len(r.Results))
+		return ""
 	case "errbool":
 		// a function whose only result is `error`: true = returned nil
 		if len(r.Results) == 1 {
@@ -1250,8 +1262,13 @@ func (t *tr) ret(r *ast.ReturnStmt) string {
 		}
 		st := ""
 		k := src(r.Results[t.sp.StatusIdx])
+		ck := norm(src(t.subst(r.Results[t.sp.StatusIdx]))) // the same value under its canonical (alias-substituted / Bind) name
 		if n, ok := t.sp.Status[k]; ok {
 			st = fmt.Sprintf("(%d : Nat)", n)
+		} else if n, ok := t.sp.Status[ck]; ok {
+			st = fmt.Sprintf("(%d : Nat)", n)
+		} else if n, ok := t.sp.Status["*"]; ok && k != "nil" {
+			st = fmt.Sprintf("(%d : Nat)", n) // "*": any value other than nil
 		} else if rp, ok := t.sp.Repl[k]; ok {
 			st = rp
 		} else {
@@ -1552,6 +1569,22 @@ func (t *tr) block(b []ast.Stmt, tail string, ind string) string {
 			}
 		}
 		rx := src(t.subst(x.X))
+		if c2, ok2 := lookup(t.sp.RangeAnyReturn, rx); ok2 {
+			var rets []*ast.ReturnStmt
+			ast.Inspect(x.Body, func(n ast.Node) bool {
+				if _, isLit := n.(*ast.FuncLit); isLit {
+					return false
+				}
+				if r, isRet := n.(*ast.ReturnStmt); isRet {
+					rets = append(rets, r)
+				}
+				return true
+			})
+			if len(rets) != 1 || containsBranch(x.Body.List) {
+				failf(s, "range loop over %s: expected exactly one return and no break/continue in the body", src(x.X))
+			}
+			return "if " + c2 + " then\n" + ind + "  " + t.ret(rets[0]) + "\n" + ind + "else\n" + ind + t.block(rest, tail, ind)
+		}
 		c, ok := lookup(t.sp.RangeCond, rx)
 		if !ok {
 			failf(s, "unsupported range loop over %s", src(x.X))
@@ -1575,6 +1608,15 @@ func (t *tr) block(b []ast.Stmt, tail string, ind string) string {
 			failf(s, "range loop over %s: loop test is `%s`, expected `%s`", src(x.X), key, want)
 		}
 		return "if " + c + " then\n" + ind + "  " + t.ret(r) + "\n" + ind + "else\n" + ind + t.block(rest, tail, ind)
+	case *ast.GoStmt:
+		// a detached call: an effect named by Spec.AppendEffect["stmt:go"] (e.g. "filled_ := true"), or ignored like a logging call
+		if eff, ok := t.sp.AppendEffect["stmt:go"]; ok {
+			return "let " + eff + "\n" + ind + t.block(rest, tail, ind)
+		}
+		if t.ignoredCall(x.Call) {
+			return t.block(rest, tail, ind)
+		}
+		failf(s, "unsupported go statement %s", src(s))
 	case *ast.DeferStmt:
 		if t.ignoredCall(x.Call) {
 			return t.block(rest, tail, ind)
